@@ -65,19 +65,11 @@ func runC10(c *Ctx) {
 			return false
 		}
 		// start: the edge on which the dequeued slice is known non-empty
-		var lenCmps []ssa.Instruction
-		ir.Instrs(fn, func(in ssa.Instruction) {
-			b, ok := in.(*ssa.BinOp)
-			if !ok {
-				return
-			}
-			if call, ok := b.X.(*ssa.Call); ok && isBuiltin("len")(call) && isReqs(call.Call.Args[0]) {
-				if k, isC := ir.ConstInt(b.Y); isC && k == 0 {
-					lenCmps = append(lenCmps, in)
-				}
-			}
-		})
-		g := cmpIs("len(newReqs) > 0", lenCmps, true)
+		isLenReqs := func(v ssa.Value) bool {
+			call, ok := ir.Strip(v).(*ssa.Call)
+			return ok && isBuiltin("len")(call) && isReqs(call.Call.Args[0])
+		}
+		g, _ := relGuard("len(newReqs) > 0", fn, isLenReqs, constIntIs(0), token.GTR)
 		// tabled exits: returns inside a select arm on the scanner's quit
 		quitF := c.field("neutrino", "UtxoScanner", "quit")
 		quitCut := ir.Cut{}
@@ -240,19 +232,10 @@ func runC10(c *Ctx) {
 		addN := callTo(rep("addNewRequests"))
 		spends := callTo(rep("notifySpends"))
 		// on the path where there are new requests
-		var lenCmps []ssa.Instruction
-		ir.Instrs(fn, func(in ssa.Instruction) {
-			b, ok := in.(*ssa.BinOp)
-			if !ok {
-				return
-			}
-			if call, ok := b.X.(*ssa.Call); ok && isBuiltin("len")(call) && call.Call.Args[0] == ssa.Value(fn.Params[2]) {
-				if k, isC := ir.ConstInt(b.Y); isC && k == 0 {
-					lenCmps = append(lenCmps, in)
-				}
-			}
-		})
-		g := cmpIs("len(newReqs) > 0", lenCmps, true)
+		g, _ := relGuard("len(newReqs) > 0", fn, func(v ssa.Value) bool {
+			call, ok := ir.Strip(v).(*ssa.Call)
+			return ok && isBuiltin("len")(call) && call.Call.Args[0] == ssa.Value(fn.Params[2])
+		}, constIntIs(0), token.GTR)
 		cut := ir.Cut{}
 		for _, s := range g.sites {
 			cut[s.br.Other()] = true
